@@ -13,6 +13,7 @@ Failing(e) ==
   \cup (IF x.res = "ok" /\ e.res = "ok" /\ (DOMAIN e.attrs # DOMAIN x.attrs \/ \E a \in DOMAIN x.attrs : a \in DOMAIN e.attrs /\ ~EqV(e.attrs[a], x.attrs[a]))
         THEN {"attribute_values"} ELSE {})
   \cup (IF x.res = "ok" /\ e.res = "ok" /\ e.posts # x.posts THEN {"post_init_count"} ELSE {})
+  \cup (IF x.res = "ok" /\ e.res = "ok" /\ x.posts = 1 /\ e.posts = 1 /\ e.post_owners[1] # PostOwner(H, e.c) THEN {"post_init_wrong_hook"} ELSE {})
   \cup (IF e.res = "ok" /\ ~e.post_saw_final THEN {"post_init_before_attributes_set"} ELSE {})
 F == [i \in 1..N |-> Failing(Events[i])]
 BadIdx == {i \in 1..N : F[i] # {}}
